@@ -1,10 +1,12 @@
 #!/bin/sh
 # usage: mk_worktree.sh <name>  -> creates /tmp/wt/<name> (scratch worktree of /repo HEAD with the
-# git-ignored compiled kernel copied in, so the test-suite imports there)
+# git-ignored compiled kernel copied in, so the test-suite imports there).  The kernel files are taken from
+# $KERNEL_FROM (default /repo/src/rsatoolbox/cengine); pass a clean copy while a kernel patch is applied to /repo.
 set -e
 d=/tmp/wt/$1
+src=${KERNEL_FROM:-/repo/src/rsatoolbox/cengine}
 mkdir -p /tmp/wt
 git -C /repo worktree add --detach -f "$d" HEAD >/dev/null 2>&1
-cp /repo/src/rsatoolbox/cengine/similarity.c /repo/src/rsatoolbox/cengine/similarity*.so "$d/src/rsatoolbox/cengine/"
+cp $src/similarity.c $src/similarity*.so "$d/src/rsatoolbox/cengine/"
 mkdir -p "$d/deliver"
 echo "$d"
